@@ -106,7 +106,9 @@ def run(ck):
             hist.append((a, b, v))
             before = rm.data.copy()
             try:
-                rm.set_rate((a, b), float(v))
+                # columns / rows may be addressed from the end (negative indices), as with any array
+                ia, ib = (a - N if (h % 4 == 1 and i % 3 == 0 and a != b) else a), (b - N if (h % 4 == 1 and i % 2 == 0 and a != b) else b)
+                rm.set_rate((ia, ib), float(v))
                 out = "ok " + " ".join(frac(x) for x in rm.data.flatten())
                 if (a, b) in last:
                     overwrites += 1
@@ -177,6 +179,12 @@ def run(ck):
                 ck.fail("propagate:caller-array", "propagate() changed the array of initial populations it was given",
                         {"K": K.tolist(), "p0": p0.tolist(), "dt": dt, "nt": nt}, arg.tolist(), p0.tolist())
             else:
+                kept = pops.copy()
+                other = numpy.asarray(prop.propagate(2.0 * arg), dtype=float)      # another call in between; its result is a different one
+                if not numpy.array_equal(pops, kept) or numpy.shares_memory(other, pops):
+                    ck.fail("propagate:earlier-result-changed", "the populations returned by an earlier propagate() were changed by the next call on the same "
+                            "propagator", {"K": K.tolist(), "p0": p0.tolist(), "dt": dt, "nt": nt}, float(numpy.abs(pops - kept).max()), 0)
+                    pops = kept
                 again = numpy.asarray(prop.propagate(arg), dtype=float)
                 if not numpy.array_equal(again, pops):
                     ck.fail("propagate:caller-array", "a second propagate() with the same array gives other populations",
